@@ -39,7 +39,7 @@ CLAIMED = {
         text="Bounded model checking of the value parsers' decisions: ranged integer parsers on CONCRETE boundary literals against EVERY range (lo, hi over all 64-bit values, "
              "9 bound shapes) for each target width; boolean literal tables with a symbolic ASCII case per letter; possible-value matching with symbolic case and ignore_case (Kani). "
              "Typed access (MIR->SMT): try_remove_arg_t / verify_arg_t decide by the type-id comparison and a failed remove re-inserts the entry on every path. "
-             "Fully symbolic candidate strings are out of reach (DESIGN 0).",
+             "The `value_parser(<range>)` sugar hands the ranged parser a range of the same kind with the input's bounds (MIR->SMT data flow). Fully symbolic candidate strings are out of reach (DESIGN 0).",
         note="Stubs cut message construction only (fmt::format, Error::with_cmd, Error::value_validation/invalid_value, format_bounds, usage for the non-UTF-8 path); "
              "str::to_lowercase is replaced by to_ascii_lowercase (std's contract on ASCII-only input; inputs are ASCII-only). Counterexamples of the heavy harnesses are realised by a native witness search.",
         ref="2 C04", technique=MIX),
@@ -125,13 +125,14 @@ CLAIMED = {
     "C19": dict(
         text="PARTIAL (thin). MIR->SMT (z3 + cvc5) on clap_mangen: each of the 8 hidden-item filter closures (synopsis, options, subcommands, possible values, per-subcommand pages, has-arguments / has-subcommands "
              "predicates) equals `!item.is_hide_set()`, every loop of render::synopsis over arguments/positionals and every consumer of get_arguments in the options section runs over such a filter, and Man::render emits its sections once each in the fixed order with OPTIONS / SUBCOMMANDS / VERSION present iff their guard predicate holds. "
-             "That rendering never panics, determinism, and that author-supplied text cannot start a roff request (escaping is in the third-party roff crate) are NOT decided.",
+             "The version section has no unwrap on a possibly absent version; arguments of roff requests (.SH/.TH) are literals or pass through a line-break-removing function. "
+             "Panics elsewhere in rendering, determinism, and the escaping done by the third-party roff crate for text lines are NOT decided.",
         note="The section renderers and iterator adaptors are opaque; that the filters are applied to every item is trusted. Realised natively by /verif/native/c19 (32 hide/version/author combinations rendered).",
         ref="2 C19", technique="own MIR->SMT translation: closure equivalence and call order on paths, z3 + cvc5, native replay"),
     "C20": dict(
         text="PARTIAL. (Kani) width accounting (display_width vs an ANSI-skip reference) and word splitting (find_words_ascii_space: consecutive non-empty pieces, cuts only at space->non-space) "
              "for EVERY ASCII string up to the length bound. (MIR->SMT) the loop BODY of LineWrapper::wrap equals the reference step from an arbitrary state (running width restarts from the re-emitted "
-             "indent after a break, index skips the inserted items). End-to-end wrap of whole texts and styled text are not decided.",
+             "indent after a break, index skips the inserted items); StyledStr::wrap trims the rebuilt text at its end only. End-to-end wrap of whole texts is not decided.",
         note="Feature unicode off (every char width 1); ASCII alphabet (128 values per byte); the step's callees (display_width, trim_end, str::len, Vec::insert) are opaque pure values.",
         ref="2 C20", technique=MIX),
 }
@@ -180,7 +181,7 @@ def main():
         ],
         "checks": checks,
         "not_applicable": [{"property_id": k, "reason": v} for k, v in sorted(na.items())],
-        "notes": "Every verdict is 'holds for all inputs inside the bound stated in evidence/<id>.json'. exit 2 = inconclusive (timeout/OOM/vacuous harness/unreproduced counterexample), never reported as success. Known findings (genuine defects recorded rather than repaired) and the list of repaired ones are in /verif/known_findings.txt: currently two findings (C11 no_binary_name usage names; C12 sort-key collision between a short flag and a long-only option) and thirteen `fixed:` entries whose fix: commits are in /repo. See DESIGN.md 1.5.",
+        "notes": "Every verdict is 'holds for all inputs inside the bound stated in evidence/<id>.json'. exit 2 = inconclusive (timeout/OOM/vacuous harness/unreproduced counterexample), never reported as success. Known findings (genuine defects recorded rather than repaired) and the list of repaired ones are in /verif/known_findings.txt: currently two findings (C11 no_binary_name usage names; C12 sort-key collision between a short flag and a long-only option) and sixteen `fixed:` entries whose fix: commits are in /repo. See DESIGN.md 1.5.",
     }
     with open(os.path.join(VERIF, "MANIFEST.json"), "w") as f:
         json.dump(m, f, indent=1)
